@@ -11,6 +11,13 @@ use std::net::SocketAddr;
 use std::time::{Duration, Instant};
 
 fn addr() -> SocketAddr { "127.0.0.1:9".parse().unwrap() }
+
+/// records every packet the transport is asked to put on the wire (plaintext, before SRTP)
+struct Egress(parking_lot::Mutex<Vec<RtpPacket>>);
+impl rustrtc::peer_connection::RtpObserver for Egress {
+    fn on_egress(&self, p: &RtpPacket, _dst: SocketAddr) { self.0.lock().push(p.clone()); }
+}
+const RTX_PT: u8 = 97;
 fn pkt(ssrc: u32, seq: u16, tag: u32) -> RtpPacket {
     RtpPacket { header: RtpHeader::new(96, seq, tag, ssrc), payload: Bytes::from_static(b"p"), padding_len: 0 }
 }
@@ -28,12 +35,20 @@ pub fn s_nackbuf(_run: &mut Run, a: &[&str]) -> (String, Fails) {
     let mut fifo: VecDeque<u16> = VecDeque::new(); let mut latest: HashMap<u16, u32> = HashMap::new();
     let mut accepted: HashMap<u16, u64> = HashMap::new();
     let mut rtx: u32 = 0;
+    // a transport without a socket: `send_rtp` fails after the egress observers have seen the packet
+    let (_stx, srx) = tokio::sync::watch::channel::<Option<rustrtc::transports::ice::IceSocketWrapper>>(None);
+    let tr = std::sync::Arc::new(rustrtc::transports::rtp::RtpTransport::new(rustrtc::transports::ice::conn::IceConn::new(srx, addr(), None), false));
+    let egress = std::sync::Arc::new(Egress(parking_lot::Mutex::new(vec![])));
+    tr.add_observer(egress.clone());
+    let mut rtx_base: Option<u16> = None;
+    let (mut monotone, mut last_t) = (true, 0u64);
+    let mut rtx_sent: u16 = 0;
     for op in &a[1..] {
         let g: Vec<&str> = op.split(':').collect();
         match g[0] {
             "r" => {
                 rtx = g[1].parse().unwrap();
-                h.set_rtx(if rtx == 0 { None } else { Some(rustrtc::rtx::RtxSenderConfig { rtx_ssrc: rtx, rtx_payload_type: 97 }) });
+                h.set_rtx(if rtx == 0 { None } else { Some(rustrtc::rtx::RtxSenderConfig { rtx_ssrc: rtx, rtx_payload_type: RTX_PT }) });
                 if h.rtx_config().map(|c| c.rtx_ssrc).unwrap_or(0) != rtx { f.push(("nackbuf:rtx-config".into(), String::new())); }
                 out.push(format!("l{}", h.buffered_packet_count()));
             }
@@ -49,8 +64,57 @@ pub fn s_nackbuf(_run: &mut Run, a: &[&str]) -> (String, Fails) {
                 if n != fifo.len() { f.push(("nackbuf:count".into(), format!("{n} vs {}", fifo.len()))); }
                 out.push(format!("l{n}"));
             }
+            "n" => {
+                // the production path: `on_rtcp_received(GenericNack)` → packets_for_nack → (RTX wrap) → transport.send_rtp.
+                // The handler reads its own clock (`Instant::now()`): the trace's time stamp only orders the ops, and
+                // a sleep longer than the cooldown separates this NACK from every earlier resend.
+                let seqs = lst(g[2]);
+                if seqs.iter().any(|q| accepted.contains_key(q)) { std::thread::sleep(Duration::from_millis(27)); }
+                let nack = RtcpPacket::GenericNack(rustrtc::rtp::GenericNack { sender_ssrc: 1, media_ssrc: 7, lost_packets: seqs.clone() });
+                egress.0.lock().clear();
+                futures::executor::block_on(h.on_rtcp_received(&nack, tr.clone()));
+                let sent: Vec<RtpPacket> = egress.0.lock().drain(..).collect();
+                let mut items = vec![]; let mut seen = vec![];
+                for p in &sent {
+                    if rtx != 0 {
+                        // an RFC 4588 retransmission: RTX SSRC and PT, own sequence space, OSN + original payload
+                        if p.header.ssrc != rtx || p.header.payload_type != RTX_PT || p.payload.len() < 2 { f.push(("nackbuf:rtx-wrap".into(), format!("{:?}", p.header))); continue; }
+                        let osn = u16::from_be_bytes([p.payload[0], p.payload[1]]);
+                        let base = *rtx_base.get_or_insert(p.header.sequence_number);
+                        if latest.get(&osn) != Some(&p.header.timestamp) || &p.payload[2..] != b"p" { f.push(("nackbuf:rtx-wrap".into(), format!("osn {osn} ts {}", p.header.timestamp))); }
+                        // … which the receive side of this stack restores to the stored packet
+                        let rx = rustrtc::peer_connection::RtpReceiver::new(rustrtc::MediaKind::Video, 0, vec![]);
+                        rx.verif_set_rtx_state(vec![(RTX_PT, 96)], Some(rtx), 7);
+                        match rx.verif_maybe_unwrap_rtx(p.clone()) {
+                            Some(u) if u.header.ssrc == 7 && u.header.payload_type == 96 && u.header.sequence_number == osn && u.header.timestamp == p.header.timestamp && &u.payload[..] == b"p" => {}
+                            other => f.push(("nackbuf:rtx-not-restored".into(), format!("{:?}", other.map(|u| u.header)))),
+                        }
+                        // RFC 4588 §4: the retransmission stream has its own sequence number space, advanced by one per packet
+                        let off = p.header.sequence_number.wrapping_sub(base);
+                        if off != rtx_sent { f.push(("nackbuf:rtx-seq-not-consecutive".into(), format!("packet {rtx_sent} of the RTX stream carries offset {off}"))); }
+                        rtx_sent = rtx_sent.wrapping_add(1);
+                        items.push(format!("{osn}:{}:{}", p.header.timestamp, off));
+                        seen.push(osn);
+                    } else {
+                        if latest.get(&p.header.sequence_number) != Some(&p.header.timestamp) { f.push(("nackbuf:plain-resend".into(), format!("{:?}", p.header))); }
+                        items.push(format!("{}:{}:-", p.header.sequence_number, p.header.timestamp));
+                        seen.push(p.header.sequence_number);
+                    }
+                }
+                // every requested packet still stored is retransmitted exactly once (the sleep rules the cooldown out)
+                let mut uniq = seqs.clone(); uniq.dedup(); let mut want: Vec<u16> = vec![]; for q in &seqs { if latest.contains_key(q) && !want.contains(q) { want.push(*q); } }
+                let _ = uniq;
+                if seen != want { f.push(("nackbuf:nack-response".into(), format!("resent {seen:?}, stored+requested {want:?}"))); }
+                let t: u64 = g[1].parse().unwrap();
+                for q in &seen { accepted.insert(*q, t); }
+                out.push(format!("r{}", if items.is_empty() { "-".to_string() } else { items.join(";") }));
+            }
             _ => {
                 let (t, seqs): (u64, Vec<u16>) = (g[1].parse().unwrap(), lst(g[2]));
+                // the cooldown clauses below are stated for a clock that does not run backwards (with a backwards step the
+                // bounded cooldown map may already have dropped an entry; the model covers that case)
+                if t < last_t { monotone = false; }
+                last_t = t;
                 let got = h.packets_for_nack(&seqs, base + Duration::from_millis(t));
                 let mut seen = vec![];
                 for p in &got {
@@ -62,8 +126,8 @@ pub fn s_nackbuf(_run: &mut Run, a: &[&str]) -> (String, Fails) {
                 }
                 for s in &seqs {
                     let cooling = accepted.get(s).map_or(false, |l| t.saturating_sub(*l) < 25);
-                    if latest.contains_key(s) && !cooling && !seen.contains(s) { f.push(("nackbuf:retained-packet-not-resent".into(), format!("{s}"))); }
-                    if cooling && seen.contains(s) { f.push(("nackbuf:cooldown-ignored".into(), format!("{s}"))); }
+                    if monotone && latest.contains_key(s) && !cooling && !seen.contains(s) { f.push(("nackbuf:retained-packet-not-resent".into(), format!("{s}"))); }
+                    if monotone && cooling && seen.contains(s) { f.push(("nackbuf:cooldown-ignored".into(), format!("{s}"))); }
                 }
                 for s in &seen { accepted.insert(*s, t); }
                 out.push(format!("g{}", if got.is_empty() { "-".to_string() } else {
@@ -80,6 +144,7 @@ pub fn s_gap(_run: &mut Run, a: &[&str]) -> (String, Fails) {
     let mut out = vec![]; let mut f: Fails = vec![];
     // bookkeeping for the oracle: highest sequence number accepted so far on the current SSRC
     let mut cur: Option<(u32, u16)> = None; let mut nacked: Vec<u16> = vec![];
+    let mut plen_before = 0usize;
     for t in a {
         let (s, q) = t.split_once(':').unwrap();
         let (ssrc, seq): (u32, u16) = (s.parse().unwrap(), q.parse().unwrap());
@@ -111,7 +176,13 @@ pub fn s_gap(_run: &mut Run, a: &[&str]) -> (String, Fails) {
                 if d < 32768 { cur = Some((cur.unwrap().0, seq)); }
             }
         }
-        out.push(match lost { None => "n".to_string(), Some(l) => format!("k{}", if l.is_empty() { "-".into() } else { l.iter().map(|x| x.to_string()).collect::<Vec<_>>().join(";") }) });
+        let plen = h.verif_pending_len();
+        // "bound pending set similarly to the gap cap": an eviction leaves exactly MAX_RECEIVER_NACK_GAP entries
+        if lost.is_some() && plen < plen_before && plen != 128 { f.push(("gap:pending-eviction-size".into(), format!("{plen_before} -> {plen}"))); }
+        plen_before = plen;
+        // the pending set is bounded: it never exceeds twice the NACK cap, and a step that would is cut back to the cap
+        if plen > 256 { f.push(("gap:pending-unbounded".into(), format!("{plen}"))); }
+        out.push(format!("{}#{plen}", match lost { None => "n".to_string(), Some(l) => format!("k{}", if l.is_empty() { "-".into() } else { l.iter().map(|x| x.to_string()).collect::<Vec<_>>().join(";") }) }));
     }
     (out.join(" "), f)
 }
@@ -131,7 +202,8 @@ pub fn generate(run: &mut Run, rng: &mut Rng, scale: u64, emit: &mut dyn FnMut(&
                 tag += 1;
                 if rng.chance(1, 8) { ops.push(format!("r:{}", pk!(rng, [9u32, 9, 9, 0, 7]))); }
             } else {
-                t += pk!(rng, [0u64, 1, 24, 25, 26, 100]);
+                // (time occasionally runs backwards: `duration_since` saturates, pruned cooldown entries stop suppressing)
+                if rng.chance(1, 10) { t = t.saturating_sub(pk!(rng, [1u64, 30, 200])); } else { t += pk!(rng, [0u64, 1, 24, 25, 26, 100]); }
                 let k = rng.range(1, 6);
                 let qs: Vec<String> = (0..k).map(|_| seq.wrapping_sub(rng.below(8) as u16).wrapping_add(rng.below(2) as u16).to_string()).collect();
                 ops.push(format!("q:{t}:{}", qs.join(";")));
@@ -139,6 +211,23 @@ pub fn generate(run: &mut Run, rng: &mut Rng, scale: u64, emit: &mut dyn FnMut(&
         }
         emit(run, format!("nackbuf {max} {}", ops.join(" ")));
         if i == 0 { run.count("nackbuf_traces"); } else { run.count("nackbuf_traces"); }
+    }
+    // NACK feedback through the production path (on_rtcp_received → RTX wrap → transport), no synthetic clock
+    for _ in 0..60 * scale {
+        let max = pk!(rng, [2usize, 4, 8, 16]);
+        let mut seq = pk!(rng, [0u16, 65_530, 100]);
+        let mut t = 0u64; let mut tag = 1u32; let mut ops = vec![];
+        if rng.chance(2, 3) { ops.push("r:9".to_string()); }
+        for _ in 0..rng.range(3, 25) {
+            match rng.below(10) {
+                0..=5 => { seq = seq.wrapping_add(1); if rng.chance(1, 8) { ops.push(format!("x:9:{seq}:{tag}")); } else { ops.push(format!("s:{seq}:{tag}")); } tag += 1; }
+                6 => ops.push(format!("r:{}", pk!(rng, [9u32, 9, 0]))),
+                _ => { t += 30; let k = rng.range(1, 5);
+                    let qs: Vec<String> = (0..k).map(|_| seq.wrapping_sub(rng.below(6) as u16).to_string()).collect();
+                    ops.push(format!("n:{t}:{}", qs.join(";"))); }
+            }
+        }
+        emit(run, format!("nackbuf {max} {}", ops.join(" "))); run.count("nackbuf_production_path_traces");
     }
     // receiver: steps +1, gaps of boundary sizes, reordering, duplicates, old packets, SSRC switches, wrap
     for _ in 0..1200 * scale {
@@ -149,7 +238,7 @@ pub fn generate(run: &mut Run, rng: &mut Rng, scale: u64, emit: &mut dyn FnMut(&
         for k in 0..n {
             let r = rng.below(100);
             let s = if k == 0 { seq } else if r < 50 { seq.wrapping_add(1) }
-                else if r < 70 { seq.wrapping_add(pk!(rng, [2u16, 3, 5, 17, 128, 129, 130, 200])) }
+                else if r < 70 { seq.wrapping_add(pk!(rng, [2u16, 3, 5, 17, 128, 129, 130, 200, 129, 200])) }
                 else if r < 80 { seq.wrapping_sub(pk!(rng, [1u16, 2, 3, 10, 127, 128, 129])) }
                 else if r < 85 { seq }
                 else if r < 90 { seq.wrapping_add(pk!(rng, [32_767u16, 32_768, 32_769, 40_000])) }
@@ -157,7 +246,9 @@ pub fn generate(run: &mut Run, rng: &mut Rng, scale: u64, emit: &mut dyn FnMut(&
                 else { seq.wrapping_add(rng.below(300) as u16) };
             let d = s.wrapping_sub(last);
             if d > 1 && d < 32768 { budget += (d as usize - 1).min(128); }
-            if budget > 250 { break; }               // keep the pending set below the unmodelled hash-order eviction
+            // beyond 256 pending entries the code evicts in HashSet order: the step that overflows is still compared
+            // (lost list, pending size cut back to 128), then the trace ends
+            if budget > 256 { toks.push(format!("{ssrc}:{s}")); break; }
             if d < 32768 { last = s; seq = s; }
             toks.push(format!("{ssrc}:{s}"));
         }
